@@ -126,11 +126,38 @@ inline Gen<P2> pair_mul_hipattern()
 inline Gen<P2> pair_hilo() { return rc::gen::pair(hilo(), hilo()); }
 
 inline Gen<P2> pair_indep() { return rc::gen::pair(fe(), fe()); }
+// operands in a RELATION: equal, equal residue in the other representation, negatives, inverses, doubles, complements to 2^64 / to p / to a power of two
+inline Gen<P2> pair_related()
+{
+    return rc::gen::apply([](uint64_t a, int rel, int k, uint64_t u) -> P2 {
+        switch (rel) {
+        case 0: return {a, a};
+        case 1: return {a, a >= PR ? a - PR : (a < 0xFFFFFFFFull ? a + PR : a)};              // same residue, other representation
+        case 2: return {a, ref::neg(a)};                                                        // a + b == 0 (mod p), b canonical
+        case 3: return {a, (uint64_t)0 - a};                                                    // a + b == 2^64
+        case 4: return {a, PR - a};                                                             // a + b == p as integers (wraps when a > p)
+        case 5: return {a, a % PR ? ref::inv(a) : 1};                                           // a * b == 1
+        case 6: return {a, ref::add(a, a)};                                                     // b == 2a
+        case 7: return {a, ((uint64_t)1 << (k & 63)) - a};                                      // a + b == 2^k
+        case 8: return {a, a % PR ? ref::mul(((uint64_t)1 << (k & 63)) % PR, ref::inv(a)) : 0}; // a * b == 2^k (mod p)
+        case 9: return {a, ~a};                                                                 // bitwise complement
+        case 10: return {a, a ^ 0x8000000000000000ull};                                         // differ in the sign bit only
+        // relations between the 32-bit WORDS of the two operands (a second uniform value supplies the free words)
+        case 11: return {a, (((uint64_t)0x100000000ull - (a >> 32)) << 32) | (u & 0xFFFFFFFFull)};      // hi(a) + hi(b) == 2^32
+        case 12: return {a, (u & 0xFFFFFFFF00000000ull) | ((0x100000000ull - (a & 0xFFFFFFFFull)) & 0xFFFFFFFFull)}; // lo(a) + lo(b) == 2^32
+        case 13: return {a, (a & 0xFFFFFFFF00000000ull) | (u & 0xFFFFFFFFull)};                  // same high word
+        case 14: return {a, (u & 0xFFFFFFFF00000000ull) | (a & 0xFFFFFFFFull)};                  // same low word
+        case 15: return {a, (a << 32) | (a >> 32)};                                              // words swapped
+        case 16: return {a, ((0xFFFFFFFFull - (a >> 32)) << 32) | (u & 0xFFFFFFFFull)};          // hi(a) + hi(b) == 2^32 - 1
+        default: return {a, (u & 0xFFFFFFFF00000000ull) | (0xFFFFFFFFull - (a & 0xFFFFFFFFull))}; // lo(a) + lo(b) == 2^32 - 1
+        }
+    }, fe(), irange(0, 17), irange(0, 63), uni64());
+}
 
-inline Gen<P2> pair_add() { return rc::gen::weightedOneOf<P2>({{3, pair_indep()}, {4, pair_add_solved()}, {1, pair_hilo()}}); }
-inline Gen<P2> pair_sub() { return rc::gen::weightedOneOf<P2>({{3, pair_indep()}, {4, pair_sub_solved()}, {1, pair_hilo()}}); }
-inline Gen<P2> pair_mul() { return rc::gen::weightedOneOf<P2>({{3, pair_indep()}, {3, pair_mul_residue()}, {3, pair_mul_hipattern()}, {2, pair_hilo()}}); }
-inline Gen<P2> pair_any() { return rc::gen::weightedOneOf<P2>({{2, pair_indep()}, {2, pair_add_solved()}, {2, pair_sub_solved()}, {2, pair_mul_residue()}, {2, pair_mul_hipattern()}, {1, pair_hilo()}}); }
+inline Gen<P2> pair_add() { return rc::gen::weightedOneOf<P2>({{3, pair_indep()}, {4, pair_add_solved()}, {1, pair_hilo()}, {1, pair_related()}}); }
+inline Gen<P2> pair_sub() { return rc::gen::weightedOneOf<P2>({{3, pair_indep()}, {4, pair_sub_solved()}, {1, pair_hilo()}, {1, pair_related()}}); }
+inline Gen<P2> pair_mul() { return rc::gen::weightedOneOf<P2>({{3, pair_indep()}, {3, pair_mul_residue()}, {3, pair_mul_hipattern()}, {2, pair_hilo()}, {1, pair_related()}}); }
+inline Gen<P2> pair_any() { return rc::gen::weightedOneOf<P2>({{2, pair_indep()}, {2, pair_add_solved()}, {2, pair_sub_solved()}, {2, pair_mul_residue()}, {2, pair_mul_hipattern()}, {1, pair_hilo()}, {1, pair_related()}}); }
 
 // n field elements
 inline Gen<std::vector<uint64_t>> fe_vec(size_t n) { return rc::gen::container<std::vector<uint64_t>>(n, fe()); }
